@@ -415,6 +415,13 @@ fn token_pool() -> Vec<&'static str> {
 pub fn gen_c07(ctx: &Ctx, rng: &mut Rng, out: &mut Vec<String>) {
     let t = ctx.tier_thorough;
     // (a) in-process round trips
+    // text longer than any block or buffer a writer is likely to use (value lines of 64 KiB and beyond)
+    for (bi, (shape, p)) in [(vec![21usize, 21, 21], 6usize), (vec![9500], 5), (vec![1300], 60), (vec![70, 70, 3], 9)].into_iter().enumerate() {
+        if !t && bi >= 2 { continue; }
+        let n: usize = shape.iter().product();
+        let data: Vec<f64> = (0..n).map(|j| ((j * 11 + bi) % 257) as f64 * 0.25).collect();
+        out.push(format!("io.textrt\t{}\t{}\t{}", nats(&shape), bits(&data), p));
+    }
     for i in 0..(if t { 3000 } else { 220 }) {
         let (shape, data) = if i == 0 { (vec![2, 1, 3], SPECIALS[..6].iter().map(|b| f64::from_bits(*b)).collect()) } else { spec(rng, 6, 4, 120) };
         out.push(format!("io.npyrt\t{}\t{}", nats(&shape), bits(&data)));
@@ -612,6 +619,16 @@ pub fn gen_c15(ctx: &Ctx, rng: &mut Rng, out: &mut Vec<String>) {
         out.push(format!("io.npyrt\t{}\t{}", nats(&shape), bits(&data)));
         if rng.chance(1, 4) { out.push(format!("io.npload\t{}\t{}", nats(&shape), bits(&data))); }
     }
+    // valid npy files of several element types arriving on stdin in two pieces, the first of 1..7 bytes (inside the magic string, inside the
+    // version / length bytes), and through a named pipe: the format is recognised and the values read whatever the first read delivers
+    for (i, (shape, data)) in [(vec![2usize, 3], vec![0.0f64, 1.0, 2.0, 3.0, 4.0, 5.0]), (vec![5], vec![1.5, 0.0, -2.0, 0.25, 1024.5])].into_iter().enumerate() {
+        for k in [1usize, 2, 3, 5, 6, 7, 9, 11] {
+            if !t && (k + i) % 2 == 0 && k > 3 { continue; }
+            out.push(format!("io.pipe\t-O npy\tsplit{k}\tview\t--precision 4\t{}\t{}", nats(&shape), bits(&data)));
+            if k <= 3 { out.push(format!("io.pipe\t-O text --precision 3\tsplit{k}\tview\t-O npy\t{}\t{}", nats(&shape), bits(&data))); }
+        }
+        out.push(format!("io.pipe\t-O npy\tfifo\tstat\t-s sum --precision 6\t{}\t{}", nats(&shape), bits(&data)));
+    }
     // an npy file written to a path that already holds a longer file (npy or text): what is read back is the second spectrum only
     for i in 0..(if t { 30 } else { 6 }) {
         let (s1, d1) = { let sh = shapes::random_shape(rng, 2, 3, 3, 6, 300); let n: usize = sh.iter().product(); (sh, (0..n).map(|j| (j % 11) as f64 + 0.5).collect::<Vec<f64>>()) };
@@ -721,6 +738,25 @@ pub fn gen_c16(ctx: &Ctx, rng: &mut Rng, out: &mut Vec<String>) {
                     let (c, a) = cmds[(e + fi) % 3];
                     out.push(format!("io.cmd\t{c}\t{a}\t{}", hex(&g))); out.push(format!("io.cmdp\t{c}\t{a}\t{}", hex(&g))); out.push(format!("io.cmdp\tview\t-O npy\t{}", hex(&g)));
                 }
+            }
+        }
+    }
+    // files the reader refuses for what their header SAYS (Fortran order; element types it does not read) although they are otherwise
+    // well-formed: whole, cut at every item boundary, with whole items appended — refused in every form, never read as a spectrum
+    for (hi, (descr, isz, shape_s, n)) in [("<f8", 8usize, "(2, 3)", 6usize), ("<f8", 8, "(3, 2, 2)", 12), ("<f4", 4, "(4, 4)", 16), ("<i2", 2, "(2, 5)", 10), ("<c16", 16, "(3,)", 3), ("|b1", 1, "(4,)", 4), ("<f8", 8, "(1, 5)", 5)].into_iter().enumerate() {
+        let fortran = hi < 4 || hi == 6;
+        let d = format!("{{'descr': '{descr}', 'fortran_order': {}, 'shape': {shape_s}, }}", if fortran { "True" } else { "False" });
+        let body: Vec<u8> = (0..n * isz).map(|j| if isz == 8 && j % 8 == 7 { 0x40 } else if isz == 8 && j % 8 == 6 { (j / 8) as u8 * 16 } else { (j % 3) as u8 }).collect();
+        let f = frame(1, 0, &d, &body, rng, true);
+        let hl = f.len() - body.len();
+        let mut forms: Vec<Vec<u8>> = vec![f.clone()];
+        for k in 0..n { forms.push(f[..hl + k * isz].to_vec()); }
+        for e in [1usize, 2, n] { let mut g = f.clone(); g.extend(std::iter::repeat(0u8).take(e * isz)); forms.push(g); }
+        for (k, g) in forms.iter().enumerate() {
+            out.push(format!("io.npyread\t{}", hex(g)));
+            if t || k % 2 == 0 || k + 4 > forms.len() {
+                let (c, a) = cmds[(k + hi) % 3];
+                out.push(format!("io.cmd\t{c}\t{a}\t{}", hex(g))); out.push(format!("io.cmdp\t{c}\t{a}\t{}", hex(g)));
             }
         }
     }
@@ -853,6 +889,22 @@ pub fn gen_c18(ctx: &Ctx, rng: &mut Rng, out: &mut Vec<String>) {
             if si % 2 == 0 || t { out.push(format!("io.epipe\t{cmd}\t{args}\t{side},{side}\t{}", bits(&data))); }
         }
         if si % 3 == 0 { out.push(format!("io.epipe\tstat\t-s sum\t{side},{side}\t{}", bits(&data))); }
+    }
+    // npy versions 2.0 / 3.0 with a header longer than 65535 bytes (the case the 4-byte length field exists for) through readers that
+    // hand the stream over in pieces: whatever is in the reader's buffer after the preamble, the header is read in full
+    for (vi, major) in [2u8, 3].into_iter().enumerate() {
+        if !t && vi == 1 { continue; }
+        let dict = "{'descr': '<f8', 'fortran_order': False, 'shape': (5,), }";
+        let mut d = dict.as_bytes().to_vec();
+        let target = 65588 + 64 * vi;
+        d.extend(std::iter::repeat(b' ').take(target - 1 - d.len())); d.push(b'\n');
+        let mut f = b"\x93NUMPY".to_vec(); f.push(major); f.push(0); f.extend((d.len() as u32).to_le_bytes()); f.extend(&d);
+        for v in [25.0f64, 8.0, 4.0, 2.0, 1.0] { f.extend(v.to_le_bytes()); }
+        let l = f.len();
+        for sc in [vec![], vec![8192; l / 8192 + 2], vec![4096; l / 4096 + 2], vec![13, l], vec![100, 8192, l], vec![12, l], vec![65536, l], vec![65548, 7, 7, 7, 7, 7, 7], vec![1000; l / 1000 + 2], vec![11, 1, 1, 1, l]] {
+            out.push(format!("io.rdnpy\t{}\t{}\tN", hex(&f), nats(&sc)));
+        }
+        for k in [0usize, 5, 11, 12, 13, 4096, 65547, l - 41, l - 40, l - 1, l] { out.push(format!("io.rdnpy\t{}\t{}\t{k}", hex(&f), nats(&vec![8192; l / 8192 + 2]))); }
     }
     // stdout is a file that cannot grow beyond a limit (disk full / quota): the limit inside the header, inside the values, inside the
     // last bytes (which a buffered writer hands over only when it is flushed), at and beyond the full length
